@@ -66,6 +66,11 @@ class NT(typing.NamedTuple):
     q: tuple[int, ...] = ()
 
 @dataclasses.dataclass
+class Priv:
+    name: str
+    _rev: int = 0
+
+@dataclasses.dataclass
 class Wide:
     x: int
     y: int
@@ -103,7 +108,7 @@ def marshal_here(tl, value):
 
 # key -> (type expression, valid value sources, unmarshal input sources)
 TYPES = {
-    "int": ("int", ["1", "True", "7"], ["'1'", "b'1'", "1.0", "1", "True", "'7'"]),
+    "int": ("int", ["1", "True", "7"], ["'1'", "b'1'", "1.0", "1", "True", "'7'", "memoryview(b'1')", "memoryview(bytearray(b'7'))"]),
     "float": ("float", ["1.0", "1", "2.5"], ["'1'", "1", "True", "'2.5'", "b'1.0'"]),
     "str": ("str", ["'a'", "'1'"], ["1", "b'a'", "'a'", "1.0", "True"]),
     "Decimal": ("decimal.Decimal", ["decimal.Decimal('1.0')", "decimal.Decimal('1.00')"], ["'1.0'", "'1.00'", "1", "1.0"]),
@@ -133,11 +138,14 @@ TYPES = {
     "Literal[2, 1]": ("typing.Literal[2, 1]", ["1", "2", "True", "2.0"], ["'1'", "1", "2", "b'2'", "True", "1.0"]),
     # members and inputs that compare and hash equal but are of different classes (1 / 1.0 / True, 0 / 0.0 / False):
     # membership is class-exact, so each of them has its own answer whatever was asked before
-    "Literal[1, 'a']": ("typing.Literal[1, 'a']", ["1", "'a'", "True", "1.0"], ["1", "True", "1.0", "'a'", "'1'", "b'1'"]),
+    "Literal[1, 'a']": ("typing.Literal[1, 'a']", ["1", "'a'", "True", "1.0"], ["1", "True", "1.0", "'a'", "'1'", "b'1'", "memoryview(b'1')"]),
     "Literal[True, 'a']": ("typing.Literal[True, 'a']", ["True", "'a'", "1", "1.0"], ["True", "1", "1.0", "'a'", "'true'"]),
     "Literal[0, 'b']": ("typing.Literal[0, 'b']", ["0", "'b'", "False", "0.0"], ["False", "0", "0.0", "'b'", "'0'"]),
     "Literal[True]": ("typing.Literal[True]", ["True", "1"], ["True", "1", "1.0", "'true'"]),
     "Literal[1]": ("typing.Literal[1]", ["1", "True"], ["1", "True", "1.0", "'1'"]),
+    # a field the generic item iteration skips on the way out but accepts on the way in
+    "Priv": ("Priv", ["Priv('a', 5)", "Priv('b')"], ["{'name': 'a', '_rev': '5'}", "{'name': 'b'}", "'{\"name\": \"a\", \"_rev\": 7}'", "[('name', 'c'), ('_rev', 9)]"]),
+    "Optional[int]": ("typing.Optional[int]", ["None", "3"], ["None", "'3'", "memoryview(b'3')", "b'3'", "3"]),
     "Optional[list[int]]": ("typing.Optional[list[int]]", ["None", "[1]"], ["None", "'[1]'", "[1]"]),
     "list[int] | None": ("list[int] | None", ["None", "[1]"], ["None", "'[1]'", "[1]"]),
     "DC": ("DC", ["DC(1, ['x'])", "DC(2)"], ["{'a': 1, 'b': ['x']}", "'{\"a\": 1, \"b\": [\"x\"]}'", "{'a': '2'}", "[('a', 3)]"]),
@@ -171,6 +179,14 @@ PARTNERS = [
     {"Optional[list[int]]", "list[int] | None"}, {"list[int]", "AL"}, {"dict[str, list[int]]", "SAL"}, {"'Item'@A", "'Item'@B"},
     {"dict[str, int]", "NTy"}, {"Literal[1, 'a']", "Literal[True, 'a']"}, {"Literal[True]", "Literal[1]"},
 ]
+
+def _snap(x):
+    """snapshot of an input; an input the call left unusable (a released memoryview) is a changed input"""
+    try:
+        return snapshot(x)
+    except ValueError as e:
+        return ("<unusable>", str(e))
+
 
 _POOL = None
 
@@ -346,7 +362,7 @@ def machine(col, seed, n_examples, steps):
                 return
             col.ev()
             col.label("op:" + op)
-            before = snapshot(x)
+            before = _snap(x)
             hot = _run(op, key, x)
             if hot[0] == "skip":
                 return
@@ -374,7 +390,7 @@ def machine(col, seed, n_examples, steps):
                 col.violation("same-as-cold-process", case,
                               f"{op}({key}, {src}) after {len(self.hist) - 1} earlier steps: hot {_d(hot)}, cold {_d(want)}" + (f" [{diag}]" if diag else ""),
                               bucket=f"{op}|{key}", size=len(self.hist))
-            if snapshot(x) != before:
+            if _snap(x) != before:
                 col.violation("input-not-mutated", case, f"{op}({key}, {src}) changed its input", bucket=f"{op}|{key}", size=len(self.hist))
             if hot[0] == "ok" and op in ("marshal", "unmarshal", "decode", "api-decode"):
                 r = hot[2]
